@@ -168,6 +168,7 @@ def run(c):
               "half-sent request, idle then close, oversized request, 50 connections at once; against the real binary with N in {1,2,3,4,8,16} workers; after quiescence: process alive, /proc census of worker threads, "
               "hook events show every worker back in its loop, a valid GET answered byte-exactly, N-1 idle connections + one request still answered. In-process: the real pool runs Server::process jobs on transports "
               "with read / write-at-byte-k / flush errors and a rendezvous of N afterwards. Class = (fault-kind multiset, N, history-length class); non-trivial = contains >= 1 fault.")
+    c.level = "fault_enumeration"
     rng = c.rng
     t = treegen.generate(rng.fork("tree"), depth=1, tag="c06")
     for k in FAULTS:
